@@ -148,7 +148,7 @@ func (m *Model) Apply(fx *Fixture, e Event, blk uint64) []string {
 			}
 		}
 		// correctly sized share data
-		if e.Share == ShareShort {
+		if e.Share == ShareShort || e.Share == ShareLong1 || e.Share == ShareLong256 {
 			return nil
 		}
 		// valid owner signature over the expected nonce
